@@ -298,7 +298,19 @@ def _run(a, mod, modname, pid, seed, t0):
         ctx = mp.get_context("fork")
         pool = ctx.Pool(min(a.jobs, len(jobs)), maxtasksperchild=getattr(mod, "MAXTASKS", None))
         results = pool.imap_unordered(_worker, jobs, chunksize=1)
-    for st, val in results:
+    stall = int(os.environ.get("VF_STALL_S", "5400"))
+    it = iter(results)
+    while True:
+        try:
+            # a worker killed from outside (out-of-memory killer) loses its task without a word: give up instead of waiting for ever
+            st, val = it.next(timeout=stall) if pool else next(it)
+        except StopIteration:
+            break
+        except mp.TimeoutError:
+            errors.append("no partition finished within %d s (a worker process may have been killed)" % stall)
+            pool.terminate()
+            pool = None
+            break
         if st == "ok":
             total.merge(val)
         else:
